@@ -78,14 +78,19 @@ package parser
 //@   ensures old(field.ID) == NOTSET && len(fields) > 0 ==> field.ID == old(fields[len(fields)-1].ID) + 1
 //@   modifies field.ID
 
+//@ pure func distinctAnn(xs Annotations) bool { return forall i, j int :: 0 <= i && i < j && j < len(xs) ==> xs[i] != xs[j] }
 //@ func (a *Annotations) Append(key, value string)
-//@   requires a != nil && forall i int :: 0 <= i && i < len(*a) ==> (*a)[i] != nil
+//@   requires a != nil && (forall i int :: 0 <= i && i < len(*a) ==> (*a)[i] != nil) && distinctAnn(*a)
+//@   ensures distinctAnn(*a)
 //@   ensures (exists i int :: 0 <= i && i < len(old(*a)) && old((*a)[i].Key) == key) ==> len(*a) == len(old(*a))
 //@   ensures (forall i int :: 0 <= i && i < len(old(*a)) ==> old((*a)[i].Key) != key) ==> len(*a) == len(old(*a)) + 1 && (*a)[len(old(*a))] != nil && (*a)[len(old(*a))].Key == key && len((*a)[len(old(*a))].Values) == 1 && (*a)[len(old(*a))].Values[0] == value
 //@   ensures forall i int :: 0 <= i && i < len(old(*a)) ==> (*a)[i] == old((*a)[i]) && (*a)[i].Key == old((*a)[i].Key)
 //@   ensures forall i int :: 0 <= i && i < len(*a) ==> (*a)[i] != nil
+//@   ensures forall i int :: 0 <= i && i < len(old(*a)) && old((*a)[i].Key) == key && (forall j int :: 0 <= j && j < i ==> old((*a)[j].Key) != key) ==> len((*a)[i].Values) == len(old((*a)[i].Values)) + 1 && (*a)[i].Values[len(old((*a)[i].Values))] == value && forall k int :: 0 <= k && k < len(old((*a)[i].Values)) ==> (*a)[i].Values[k] == old((*a)[i].Values[k])
+//@   ensures forall i int :: 0 <= i && i < len(old(*a)) && !(old((*a)[i].Key) == key && (forall j int :: 0 <= j && j < i ==> old((*a)[j].Key) != key)) ==> (*a)[i].Values == old((*a)[i].Values)
 //@   modifies *a, Annotation.Values
 //@   loop 1 invariant *a == old(*a) && forall i int :: 0 <= i && i < $i ==> (*a)[i].Key != key
+//@   loop 1 invariant forall i int :: 0 <= i && i < len(*a) ==> (*a)[i].Values == old((*a)[i].Values)
 
 //@ func (p *parser) parse() (err error)
 //@   requires p != nil && wfPEG(p) && wfP(p)
@@ -189,7 +194,7 @@ package parser
 //@   requires p != nil && node != nil && wfPEG(p)
 //@   ensures forall i int :: 0 <= i && i < len(result0) ==> result0[i] != nil
 //@   modifies Annotation.Values
-//@   loop 1 invariant (node == nil || pegowner(node) == ruleAnnotations) && forall i int :: 0 <= i && i < len(ret) ==> ret[i] != nil
+//@   loop 1 invariant (node == nil || pegowner(node) == ruleAnnotations) && (forall i int :: 0 <= i && i < len(ret) ==> ret[i] != nil) && distinctAnn(ret)
 
 //@ func (p *parser) parseAnnotation(node *node32) (k, v string, err error)
 //@   requires p != nil && node != nil && wfPEG(p)
